@@ -473,6 +473,20 @@ impl FetchState {
         let mut failures = sigrefs::Validations::default();
         let signed_refs = data_refs.remotes;
 
+        // N.b. a namespace for which no `rad/sigrefs` could be loaded --
+        // neither advertised nor in storage -- cannot be validated, so none
+        // of its advertised references (e.g. a lone `rad/id`) are applied.
+        let unsigned = self
+            .tips
+            .keys()
+            .filter(|remote| !signed_refs.contains_key(remote))
+            .copied()
+            .collect::<Vec<_>>();
+        for remote in unsigned {
+            log::debug!(target: "fetch", "Pruning {remote} tips, no 'rad/sigrefs' found");
+            self.prune(&remote);
+        }
+
         // We may prune fetched remotes, so we keep track of
         // non-pruned, fetched remotes here.
         let mut remotes = BTreeSet::new();
